@@ -18,7 +18,9 @@ from ..common import Ctx
 from ..vloop import VLoop
 
 THEOREMS = ["C11_duty_window", "C11_sleep_exact", "C11_gap_window", "C11_mq_bounded_wait", "C11_mq_allowance", "C11_mq_invariant", "C11_allowance_as_stated",
-            "C11_concurrent_level_floor", "C11_duty_window_concurrent", "C11_duty_window_concurrent_from", "C11_concurrent_floor_is_reached"]
+            "C11_concurrent_level_floor", "C11_duty_window_concurrent", "C11_duty_window_concurrent_from", "C11_concurrent_floor_is_reached",
+            "C11_sync_never_held_once_due", "C11_sync_never_held_early", "C11_sync_held_inside_the_window", "C11_sync_hold_bounded", "C11_sync_window_as_stated",
+            "C11_sync_one_sided_refuted"]
 
 TPS = 1 << 20
 RATE_BITS_S = 384
@@ -150,6 +152,86 @@ def port_run(arrivals, sequential):
     port_run.seq = [(a, k, t - t0[0], x) for a, k, t, x in seq]
     port_run.vlevels = vlevels
     return rows, events, out
+
+
+def sync_run(announcements, offers, horizon=400.0):
+    """Sync-cycle avoidance on the real PortTransport (track_system_syncs on _pkt_read, avoid_system_syncs on write_frame) under a virtual clock:
+    `announcements` = [(t, device, remaining_s)] I|1F09 packets heard at time t; `offers` = times at which a frame is offered for writing.
+    Returns [(offered, written or None)]."""
+    import datetime as _dt  # noqa: PLC0415
+    import importlib  # noqa: PLC0415
+    import time as _time  # noqa: PLC0415
+
+    loop = VLoop(ceil=True)
+    asyncio.set_event_loop(loop)
+    import ramses_tx.transport as tr  # noqa: PLC0415
+    from ramses_tx.packet import Packet  # noqa: PLC0415
+    real_pc = _time.perf_counter
+    _time.perf_counter = lambda: loop.time()
+    try:
+        importlib.reload(tr)
+    finally:
+        _time.perf_counter = real_pc
+    epoch = _dt.datetime(2026, 3, 1, 12, 0, 0)
+    tr.dt_now = lambda: epoch + _dt.timedelta(seconds=loop.time())
+    tr._global_sync_cycles.clear()
+    written = {}
+
+    class T(tr.PortTransport):
+        def __init__(self):
+            self._loop = loop
+            self._leaker_sem = asyncio.BoundedSemaphore()
+            self._disable_sending = False
+            self._closing = False
+            self._transmit_times = deque(maxlen=99)
+            self._outbound_rule, self._inbound_rule = {}, {}
+            self._leaker_task = loop.create_task(self._leak_sem())
+            self._extra = {}
+            self._this_pkt = self._prev_pkt = None
+
+        def _write(self, data):
+            written[asyncio.current_task()] = loop.time()
+
+    out = []
+
+    async def one(t, k):
+        frame = f"RQ --- 18:000730 01:145038 --:------ 0000 001 {k % 256:02X}"
+        me = asyncio.current_task()
+        try:
+            await asyncio.wait_for(t.write_frame(frame), horizon)
+        except TimeoutError:
+            pass
+        out.append((k, written.get(me)))
+
+    async def main():
+        t = T()
+        evs = sorted([(a[0], 0, a) for a in announcements] + [(o, 1, k) for k, o in enumerate(offers)], key=lambda e: (e[0], e[1]))
+        tasks = []
+        for when, kind, x in evs:
+            if when > loop.time():
+                await asyncio.sleep(when - loop.time())
+            if kind == 0:
+                _, dev, rem = x
+                pkt = Packet.from_port(tr.dt_now(), f"045  I --- {dev} --:------ {dev} 1F09 003 FF{int(round(rem * 10)):04X}")
+                try:
+                    tr.PortTransport._pkt_read.__wrapped__   # the tracker wraps the real method
+                    tracker = tr.track_system_syncs(lambda self, p: None)
+                    tracker(t, pkt)
+                except AttributeError:
+                    tr.PortTransport._pkt_read(t, pkt)
+            else:
+                tasks.append(asyncio.ensure_future(one(t, x)))
+        await asyncio.gather(*tasks)
+        t._leaker_task.cancel()
+
+    try:
+        loop.run_until_complete(main())
+    finally:
+        asyncio.set_event_loop(None)
+        loop.close()
+        importlib.reload(tr)
+    got = dict(out)
+    return [(o, got.get(k)) for k, o in enumerate(offers)]
 
 
 def mqtt_run(times, no_limit=()):
@@ -284,7 +366,7 @@ def run(ctx: Ctx) -> None:
                 "dropped; distinct = by arrival pattern")
     ctx.assumptions += ["concurrent callers: each call of the wrapper is two instants (arrival: top-up and decision; write: debit), a write may be delayed arbitrarily beyond "
                         "the sleep its caller computed; K = the largest number of calls pending at once is a parameter of the run, not a constant of the code",
-                        "avoid_system_syncs is inert (no sync cycle known): its timing depends on the wall clock",
+                        "in the duty-cycle / write-gap runs avoid_system_syncs is inert (no sync cycle known); it is exercised on its own (sync_run: dt_now and perf_counter on the virtual clock)",
                         "MQTT tokens: the model is exact (rate 4/3 token/s); the implementation's binary64 decides differently only when the level is exactly at the discard "
                         "threshold; a run is compared up to such a tie",
                         "the virtual clock lives on a 2^-20 s grid, on which the implementation's binary64 level arithmetic is exact (levels are multiples of 2^-20 bit below 2^53)"]
@@ -335,6 +417,43 @@ def run(ctx: Ctx) -> None:
         elif floor < -(K - 1) * MAX_FRAME_BITS - 1e-6:
             ctx.violation("bucket-overdrawn-beyond-pending-frames", f"the bucket level (as the next top-up would compute it) fell to {floor:.1f} bits with at most {K} calls pending at once (floor: -{K - 1} frames)",
                           {"pattern": pat, "arrivals": arr, "max_pending": K}, "schedule")
+    # sync-cycle avoidance: a write offered just before a controller's announced sync is held back until the cycle is over -- and only then;
+    # "regulation only delays writes": every frame offered is written, soon after the announced time at the latest, whatever became of the
+    # controller that announced it (its next announcement may never be heard)
+    HOLD = 0.35        # the window (0.109 s) + the rest of the cycle (0.084 s) + the write gap, generously
+    sync_obs = []
+    for rem, follow_up in ((0.5, False), (0.5, True), (0.0, False), (30.0, False), (185.0, True)):
+        ann = [(1.0, "01:111111", rem)] + ([(1.0 + rem + 0.004, "01:111111", 185.0)] if follow_up else [])
+        due = 1.0 + rem
+        offers = sorted({0.5, 1.01, max(1.02, due - 0.2), max(1.02, due - 0.1), max(1.02, due - 0.05), due - 0.009 if due - 0.009 > 1.0 else 1.03, due + 0.001, due + 0.05, due + 0.5, due + 5.0, due + 60.0})
+        res = sync_run(ann, offers)
+        ctx.case(("sync", rem, follow_up), True, "sync-avoidance")
+        if not follow_up:
+            sync_obs += [(round(due * 1e6), round(off * 1e6), None if wr is None else round(wr * 1e6)) for off, wr in res if off >= 1.0]
+        for off, wr in res:
+            case = {"announcements(t, device, remaining_s)": ann, "offered_at": off, "written_at": wr, "sync_due_at": due}
+            if wr is None:
+                ctx.violation("frame-never-written-after-a-sync-announcement", f"a frame offered at {off:.3f} s was not written within 400 s (sync announced for {due:.3f} s" + (", no further announcement heard)" if not follow_up else ")"), case, "schedule")
+            elif wr - off > HOLD + (0.0 if off >= due else 0.0):
+                ctx.violation("frame-held-longer-than-the-sync-cycle", f"a frame offered at {off:.3f} s was written at {wr:.3f} s (sync announced for {due:.3f} s)", case, "schedule")
+            elif due - 0.1 <= off <= due - 0.02 and wr < due:
+                ctx.violation("frame-written-into-the-sync-cycle", f"a frame offered at {off:.3f} s, within the window before the sync announced for {due:.3f} s, was written at {wr:.3f} s", case, "schedule")
+    if built and sync_obs:
+        txt = (PRELUDE.replace("M_RegulateK.", "M_RegulateK M_SyncAvoid.") + "Eval vm_compute in (map (fun x : Z * Z => hold 40 [fst x] (snd x)) ["
+               + "; ".join(f"({d}, {o})" for d, o, _ in sync_obs) + "]).\n")
+        rc, outp = common.coq_eval("C11sync", {"x": txt}, timeout=120)["x"]
+        m = re.search(r"=\s*(\[.*\])\s*:\s*list Z", outp, flags=re.S)
+        if rc or not m:
+            ctx.obligation("correspondence:sync-hold", False, "correspondence", outp[-300:])
+        else:
+            ends = [int(x) for x in re.findall(r"-?\d+", m.group(1))]
+            # the write happens no earlier than the model's loop lets go, and soon after (the rest of the cycle, queued writes' gaps)
+            bad = [(d, o, w, e) for (d, o, w), e in zip(sync_obs, ends) if w is None or w < e - 2 or w > e + 84000 + 260000]
+            ctx.obligation("correspondence:sync-hold", not bad and len(ends) == len(sync_obs), "correspondence",
+                           f"{len(bad)} of {len(sync_obs)} writes outside [model's release, + cycle + gaps]; first (due, offered, written, model's release) us: {bad[0]}" if bad or len(ends) != len(sync_obs)
+                           else f"{len(sync_obs)} writes offered around an announced sync: each written no earlier than the model's wait loop lets go, and within the rest of the cycle after it")
+    elif not built:
+        ctx.obligation("correspondence:sync-hold", False, "correspondence", "model not built")
     # MQTT
     n_mq = 30 if thorough else 8
     coq_m, impl_m = [], []
